@@ -47,6 +47,7 @@ TOL_GRAM = 1e-9
 TOL_DEF = 1e-9
 DEF_FLOOR = 1e-4  # |lib-ref| / (|ref| + DEF_FLOOR): relative, with an absolute floor of TOL_DEF*DEF_FLOOR = 1e-13
 TOL_DOMAIN = 1e-12
+TOL_SERIES = 2e-12  # 100 x the largest value seen on the unchanged tree (2.0e-14 at n=386, n = 2..400); max |w - w(series minus last term)| / (2/n): only classifies a FejerSecond failure (signature)
 SAT_BAND = 16 * np.finfo(float).eps  # ties are tolerated only this close (relative) to a finite domain end
 
 RULE = (
@@ -311,6 +312,12 @@ def _gram(ctx, name, g, n, alpha=0.0):
     if Dp < D:
         sig = _degree_sig(Dp, n, how)
         detail = {"n": n, "alpha": alpha, "nominal_degree": D, "max_exact_degree": Dp, "err_at_first_bad_degree": float(err[Dp + 1]), "max_err": worst}
+        if name == "FejerSecond":
+            # narrow the signature: are the weights exactly those of the defining series stopped one term early?
+            dist = qref.fejer2_truncation_distance(n, g.weights)
+            sig += ";weights==series-minus-last-term" if dist <= TOL_SERIES else ";weights-other"
+            detail["distance_to_series_minus_last_term"] = dist
+            ctx.case_note("distance_to_series_minus_last_term", dist)
     ctx.check("exact-on-polynomial-class", name, worst, TOL_GRAM, sig=sig, detail=detail)
     ctx.case_note("gram_max_err", worst)
     ctx.case_note("max_exact_degree", [int(Dp), int(D)])
